@@ -1306,7 +1306,7 @@ func collectTextNodes(parent *Inline, r *inlineByteReader, end int, textKind Inl
 			break
 		}
 		if r.jumped() {
-			if r.prevPos > plainStart {
+			if r.prevPos >= plainStart {
 				textEnd := r.prevPos + 1
 				if textEnd > end {
 					// The reader was advanced past the end
